@@ -5,6 +5,8 @@
 (*   sgr seqs / g id / gs ids    the producer's output, lexed independently *)
 (*                               (seqs: the parameter lists of consecutive  *)
 (*                               SGR control sequences)                     *)
+(*   osc8 ln                     a hyperlink control string in the output   *)
+(*                               (ln = 0: empty URI)                        *)
 (*   end  prod rt in dec pan     the cells given to the producer; what each *)
 (*                               consumer (ParseStyledString,               *)
 (*                               NewStyledString, emulator pen) read from   *)
@@ -25,12 +27,12 @@ Reject(e, why, who, fld, at) ==
   /\ PrintT("REJECT " \o ToJson([scn |-> e.scn, line |-> l, why |-> why, who |-> who, fld |-> fld, at |-> at]))
 
 EndCheck(e) ==
-  LET bad == {k \in 1..3 : ~Agrees(s, e.dec[Consumers[k]])} IN
+  LET bad == {k \in 1..3 : Judged(s, e.prod, Consumers[k]) /\ ~Agrees(s, e.dec[Consumers[k]])} IN
   IF e.pan # "" THEN Reject(e, "panic", e.pan, <<>>, 0)
   ELSE IF ~Understood(s) THEN Reject(e, "illformed", e.prod, <<>>, 0)
   ELSE IF e.rt /\ ~RoundTrip(s, e.in)
        THEN Reject(e, "roundtrip", e.prod, DiffFields(s.cells, e.in), FirstDiff(s.cells, e.in))
-  ELSE IF ~EndsReset(s) THEN Reject(e, "noreset", e.prod, <<>>, 0)
+  ELSE IF ~EndsReset(s) THEN Reject(e, "noreset", e.prod, IF PenReset(s) THEN <<"link">> ELSE <<>>, 0)
   ELSE IF bad # {}           \* one line per disagreeing consumer
        THEN /\ failed' = TRUE
             /\ \A k \in bad :
@@ -50,6 +52,7 @@ Next ==
      ELSE IF e.ev = "sgr" THEN s' = StepSGRs(s, e.seqs, 1) /\ UNCHANGED failed
      ELSE IF e.ev = "g" THEN s' = StepG(s, e.g) /\ UNCHANGED failed
      ELSE IF e.ev = "gs" THEN s' = StepGs(s, e.gs) /\ UNCHANGED failed
+     ELSE IF e.ev = "osc8" THEN s' = StepLink(s, e.ln) /\ UNCHANGED failed
      ELSE IF e.ev = "end" THEN UNCHANGED s /\ EndCheck(e)
      ELSE IF e.ev = "fuzz" THEN
         /\ s' = StepSGR(InitI, e.ps)     \* the oracle itself is total: evaluating it never fails
